@@ -1,9 +1,9 @@
 #!/bin/bash
 # tools/confirm_mutant.sh <id>  : confirm a seeded change from /tmp/mut/<id>.out in a scratch worktree of /repo:
 # demo passes on pristine tree, fails with change; existing suite keeps its 643 passing tests.
-id=$1
-OUT=/tmp/mut/$id.out
-W=/tmp/confirm-$id
+id=$1; BASE=${2:-/tmp/mut}
+OUT=$BASE/$id.out
+W=/tmp/confirm-$(basename $BASE)-$id
 rm -rf $W; git -C /repo worktree add -q --detach $W HEAD || exit 2
 res="{\"id\":\"$id\""
 cd $W
@@ -13,5 +13,5 @@ PYTHONPATH=$W /venv/bin/python -W ignore $OUT/demo.py $W > $W.demo1.log 2>&1; re
 /venv/bin/python -m pytest -q -p no:cacheprovider --timeout=900 --continue-on-collection-errors --junitxml=$W.junit.xml > $W.pytest.log 2>&1
 cmp=$(python3 /verif/tools/compare_baseline.py $W.junit.xml | head -1)
 res="$res,\"suite\":\"$cmp\"}"
-echo "$res" | tee /tmp/mut/$id.confirm.json
+echo "$res" | tee $BASE/$id.confirm.json
 cd /; git -C /repo worktree remove --force $W; rm -f $W.demo0.log $W.demo1.log $W.junit.xml $W.pytest.log
